@@ -444,6 +444,15 @@ func (st *story) irregular() {
 				set = append(set, k)
 			}
 		}
+		// the holder of the victim's key would like to take the other anchors down with it:
+		// their REVOKE forms, which THEIR keys never signed
+		if r.Bool() {
+			for i, k := range set {
+				if k.id != victim.id && k.sep() && !k.revoked() && r.Chance(2, 3) {
+					set[i] = mk(k.id, 385)
+				}
+			}
+		}
 		// and tries to smuggle a new key in / drop another one
 		if r.Bool() {
 			set = append(set, mk(st.freshMat(), 257))
@@ -877,7 +886,34 @@ func storyRideAlong(st *story) {
 func storyRevocationEvidence(st *story) {
 	r := st.r
 	sp := findSpecials()
-	switch r.Intn(4) {
+	switch r.Intn(5) {
+	case 4:
+		// revocation-only answer: K1's REVOKE form validly self-signed, no signature by any
+		// non-revoked anchor, PLUS the REVOKE forms of the other anchors which their keys never
+		// signed: only K1 is revoked
+		k1, k2, k3 := st.mats[0], st.mats[1], st.mats[2]
+		cfg := []kref{mk(k1, 257), mk(k2, 257)}
+		if r.Bool() {
+			cfg = append(cfg, mk(k3, 257))
+		}
+		st.start(cfg)
+		st.honest(0, 0)
+		if r.Bool() { // K2 may be Missing by then
+			st.zone = without(st.zone, k2)
+			st.honest(0, 0)
+		}
+		var set []kref
+		for _, c := range cfg {
+			set = append(set, mk(c.id, 385))
+		}
+		if r.Bool() {
+			set = append(set, mk(st.mats[4], 257))
+		}
+		st.run(shuffled(r, set), []kref{mk(k1, 385)}, st.claims([]kref{mk(k2, 385), mk(k2, 257)}, 1, 2), vlib.Pick(r, []string{"-", "-", "T", "TS"}), "-")
+		st.zone = without(cfg, k1)
+		st.honest(0, 0)
+		st.op("autota restart")
+		st.honest(0, 0)
 	case 3:
 		// the REVOKE form of K1 has the key tag of ANOTHER tracked key K2 (configured, or pending):
 		// the revocation, validly self-signed, is still a revocation
@@ -966,6 +1002,59 @@ func storyRevocationEvidence(st *story) {
 		st.op("autota restart")
 		st.honest(0, 0)
 	}
+}
+
+// storyHoldDownAbort: a pending key disappears from ONE otherwise uneventful, accepted refresh
+// (nothing else changes in it) and is published again: its hold-down starts afresh.
+func storyHoldDownAbort(st *story) {
+	r := st.r
+	a, p := st.mats[0], st.mats[1]
+	st.start([]kref{mk(a, 257)})
+	st.run([]kref{mk(a, 257)}, []kref{mk(a, 257)}, nil, "-", "-")
+	t0 := st.v
+	both := []kref{mk(a, 257), mk(p, 257)}
+	st.run(both, []kref{mk(a, 257)}, nil, "-", "-")
+	st.tick(vlib.Pick(r, []int64{day, 10 * day, 20 * day}))
+	if r.Bool() {
+		st.run(both, []kref{mk(a, 257)}, nil, "-", "-")
+	}
+	// the uneventful refresh without the pending key
+	st.run([]kref{mk(a, 257)}, []kref{mk(a, 257)}, nil, "-", "-")
+	if r.Bool() {
+		st.op("autota restart")
+	}
+	st.tick(vlib.Pick(r, []int64{12 * hour, 5 * day}))
+	st.run(both, []kref{mk(a, 257)}, nil, "-", "-")
+	st.tickTo(t0, d30)
+	st.tick(120)
+	st.run(both, []kref{mk(a, 257)}, nil, "-", "-")
+	st.tick(12 * hour)
+	st.run(both, []kref{mk(a, 257)}, nil, "-", "-")
+}
+
+// storyRolledInRevoked: an anchor learned through a roll (Valid in the state file, not in the
+// configuration) is revoked in the first refresh after a restart while writes fail.
+func storyRolledInRevoked(st *story) {
+	r := st.r
+	a, b := st.mats[0], st.mats[1]
+	st.start([]kref{mk(a, 257)})
+	st.zone = []kref{mk(a, 257), mk(b, 257)}
+	st.run(st.zone, []kref{mk(a, 257)}, nil, "-", "-")
+	st.tick(d30 + 120)
+	st.run(st.zone, []kref{mk(a, 257), mk(b, 257)}, nil, "-", "-")
+	if r.Bool() {
+		st.tick(vlib.Pick(r, []int64{12 * hour, 100 * day}))
+		st.honest(0, 0)
+	}
+	if r.Chance(3, 4) {
+		st.op("autota restart")
+	}
+	st.revokeKey0(b)
+	f := vlib.Pick(r, []string{"TS", "TS", "T", "S", "-"})
+	st.run(st.zone, []kref{mk(a, 257), mk(b, 385)}, nil, f, "-")
+	st.run(st.zone, []kref{mk(a, 257), mk(b, 385)}, nil, "-", "-")
+	st.op("autota restart")
+	st.honest(0, 0)
 }
 
 // storyForgedClaims: what VERIFIES decides, not which key tags the RRSIGs carry.
@@ -1097,7 +1186,8 @@ func gen(r0 *vlib.R, n int, tier string, emit func(string)) {
 	}
 	scripted := []func(*story){storyRollover, storyMissing, storyMissing, storyLegacy, storyCollision, storyDamagedStore, storyDamagedStore,
 		storyForgedClaims, storyForgedClaims, storyForgedClaims, storyRideAlong, storyRideAlong, storyRideAlong,
-		storyRevocationEvidence, storyRevocationEvidence, storyRevocationEvidence, storyRevocationEvidence}
+		storyRevocationEvidence, storyRevocationEvidence, storyRevocationEvidence, storyRevocationEvidence, storyRevocationEvidence, storyRevocationEvidence,
+		storyHoldDownAbort, storyHoldDownAbort, storyRolledInRevoked, storyRolledInRevoked, storyRolledInRevoked}
 	for _, f := range scripted {
 		f(newStory(r, wrap))
 	}
